@@ -23,6 +23,12 @@ def case_key(case):
     return (case['cfg'], case['enc'], case['hex'], repr(case['f']), repr(case.get('pds')), case.get('mti'))
 
 
+def may_refuse(case):
+    """a numeral handed over as text with more leading zeros than the element is wide: the number fits, so encoding it
+    is fine, and a refusal of the over-long text is fine as well - emitting a shifted message is not"""
+    return any(k == 'NS' and p[1] == 2 for _, k, p in case['f'])
+
+
 def check_roundtrip(case, acc, sigp='c01'):
     from cardutil import iso8583
     msg, exp, cfg = isogen.build_message(case)
@@ -30,6 +36,9 @@ def check_roundtrip(case, acc, sigp='c01'):
     try:
         data = iso8583.dumps(copy.deepcopy(msg), **kw)
     except Exception as ex:
+        if may_refuse(case):
+            acc.outcome('over-long numeral text refused')
+            return
         acc.viol(sigp + '.dumps.exception', case, repr(ex), 'bytes', 'encoding a well-formed message raised')
         return
     try:
@@ -84,6 +93,9 @@ def check_conformance(case, acc, sigp='c02'):
     try:
         data = iso8583.dumps(copy.deepcopy(msg), **kw)
     except Exception as ex:
+        if may_refuse(case):
+            acc.outcome('over-long numeral text refused')
+            return
         acc.viol(sigp + '.dumps.exception', case, repr(ex), 'bytes', 'encoding a well-formed message raised')
         return
     enc_ok = True
@@ -242,17 +254,31 @@ def check_sequence(case, acc, fn, sigp):
     if case.get('inplace'):
         import copy
         isogen.set_live(copy.deepcopy(isogen.get_cfg(case['inplace']['base'])))
-    for i, sub in enumerate(case['alt']):
-        if case.get('inplace') and i > 0:
-            for edit in case['inplace']['edits'][i - 1]:
-                isogen.apply_edit(isogen._LIVE['cfg'], edit)
-        tmp = core.Acc()
-        fn(sub, tmp, sigp)
-        for sig, (n, dets) in tmp.violations.items():
-            d = dets[0]
-            acc.viol(sig.replace(sigp + '.', sigp + '.sequence.', 1), case, d['observed'], d['expected'],
-                     'step %d of the sequence (pre steps %s): %s' % (i + 1, case.get('pre', []), d['note']))
-            return
+    from cardutil import config as libconfig
+    original = libconfig.config['bit_config']
+    try:
+        for i, sub in enumerate(case['alt']):
+            if case.get('inplace') and i > 0:
+                for edit in case['inplace']['edits'][i - 1]:
+                    isogen.apply_edit(isogen._LIVE['cfg'], edit)
+            if sub.get('via_default'):
+                # a NEW configuration object becomes the package default (config['bit_config'] = site configuration);
+                # calls that pass no iso_config must follow it from now on
+                import copy
+                libconfig.config['bit_config'] = copy.deepcopy(isogen.get_cfg(sub['cfg']))
+            else:
+                libconfig.config['bit_config'] = original
+            tmp = core.Acc()
+            fn(sub, tmp, sigp)
+            for sig, (n, dets) in tmp.violations.items():
+                d = dets[0]
+                acc.viol(sig.replace(sigp + '.', sigp + '.sequence.', 1), case, d['observed'], d['expected'],
+                         'step %d of the sequence (pre steps %s)%s: %s' % (
+                             i + 1, case.get('pre', []), ', its configuration installed as the package default and '
+                             'no iso_config passed' if sub.get('via_default') else '', d['note']))
+                return
+    finally:
+        libconfig.config['bit_config'] = original
 
 
 def sequence_cases(seed):
@@ -284,6 +310,25 @@ def sequence_cases(seed):
                 sb = {'cfg': cb, 'enc': 'cp500', 'hex': True, 'seed': seed,
                       'f': [[bit] + isogen.boundary_variants(cfb[str(bit)])[1 - vi]]}
                 yield {'alt': [sa, sb, sa, dict(sa, enc='cp037'), dict(sb, hex=False, enc='latin_1'), sa]}
+
+
+def rebind_cases(seed):
+    """the package default configuration is REPLACED (config['bit_config'] = another dict) between calls that pass no
+    iso_config: default, site configuration A, default, site configuration B, A, default"""
+    small = {'cfg': 'PKG', 'enc': 'latin_1', 'hex': False, 'seed': seed, 'f': [[2, 'T', 16], [4, 'N', 4]],
+             'pds': [[23, 3]]}
+    gens = ['GEN%d' % ((seed + i * 5) % 14) for i in range(2)]
+    for ca, cb in ((gens[0], gens[1]), ('WIDE', gens[0]), (gens[1], gens[0] + 'S')):
+        cfa, cfb = isogen.get_cfg(ca), isogen.get_cfg(cb)
+        bb = isogen.bits_of(cb)
+        for k, bit in enumerate(isogen.bits_of(ca)):
+            other = bb[k % len(bb)]
+            for vi in (0, 1):
+                sa = {'cfg': ca, 'enc': 'latin_1' if vi else 'cp500', 'hex': bool(vi) and bit % 2 == 0, 'seed': seed,
+                      'f': [[bit] + isogen.boundary_variants(cfa[str(bit)])[vi]], 'via_default': True}
+                sb = {'cfg': cb, 'enc': 'latin_1', 'hex': False, 'seed': seed,
+                      'f': [[other] + isogen.boundary_variants(cfb[str(other)])[1 - vi]], 'via_default': True}
+                yield {'rebind': True, 'alt': [small, sa, small, sb, sa, small]}
 
 
 def inplace_cases(seed):
@@ -398,7 +443,9 @@ def long_cases(cfgname, enc, hx, seed):
         return c
     yield mk(bits)
     yield mk(bits, small=False)
-    yield mk(bits, pds=[[1, 3], [23, 0], [52, 990], [158, 12], [9999, 500], [148, 700]])
+    ncar = len(iso_ref.pds_carrier_bits(cfg))
+    yield mk(bits, pds=[[1, 3], [23, 0], [52, 990], [158, 12], [9999, 500], [148, 700]] if ncar >= 4 else
+             [[1, 3], [23, 0], [52, 900]])
     if enc != 'ascii':
         c = mk(bits[:4], pds=[[1, 3], [23, 0], [52, 500], [158, 12]])
         c['pds_coding'] = 'full'
@@ -432,6 +479,9 @@ def plan(tier, seed, which):
         # the same configurations supplied with their keys in string-sorted (non-ascending) order
         pair_combos += [('PKGS', 'latin_1', False), (gens[0] + 'S', 'cp500', False)]
         order_combos = [('PKGS', 'latin_1', False), (gens[0] + 'S', 'cp500', False)]
+        # widths beyond anything the packaged configuration uses (FIXED 1002..2000, 30-60 digit numbers)
+        combos += [('WIDE', 'latin_1', False), ('WIDE', 'cp500', True), ('WIDE', 'default', False)]
+        pair_combos += [('WIDE', 'latin_1', False)]
     else:
         combos = [('PKG', e, h) for e in isogen.ENCODINGS_ALL + ['default'] for h in (False, True)]
         combos += [('GEN%d' % s, e, h) for s in range(14)
@@ -443,6 +493,8 @@ def plan(tier, seed, which):
         pair_combos += [('PKGS', 'latin_1', False), ('PKGS', 'cp500', True)] + \
             [('GEN%dS' % s, 'latin_1', False) for s in range(14)]
         order_combos = [('PKGS', 'latin_1', False)] + [('GEN%dS' % s, 'cp500', False) for s in range(0, 14, 3)]
+        combos += [('WIDE', e, h) for e in isogen.ENCODINGS_ALL + ['default'] for h in (False, True)]
+        pair_combos += [('WIDE', 'latin_1', False), ('WIDE', 'cp500', True)]
     for cfgname, enc, hx in combos:
         for bit in isogen.bits_of(cfgname):
             ts.append({'fam': 'singles', 'cfg': cfgname, 'enc': enc, 'hex': hx, 'bit': bit, 'seed': seed,
@@ -474,10 +526,12 @@ def run_task(task):
     if task['fam'] == 'sequence':
         n = 0
         import itertools
-        for i, case in enumerate(itertools.chain(sequence_cases(task['seed']), inplace_cases(task['seed']))):
+        for i, case in enumerate(itertools.chain(sequence_cases(task['seed']), inplace_cases(task['seed']),
+                                                 rebind_cases(task['seed']))):
             if i % task['of'] != task['part']:
                 continue
-            acc.case(('seq', repr(case.get('pre')), repr(case.get('inplace')), repr([c['f'] for c in case['alt']]),
+            acc.case(('seq', repr(case.get('pre')), repr(case.get('inplace')), case.get('rebind'),
+                      repr([c['f'] for c in case['alt']]),
                       repr([(c['cfg'], c['enc'], c['hex']) for c in case['alt']])), nontrivial=True, outcome='sequence')
             if n == 0:
                 acc.sample({'pre': case.get('pre', []), 'alt': [dict(c, f=c['f'][:2]) for c in case['alt'][:3]]})
